@@ -253,11 +253,13 @@ func TestC16(t *testing.T) {
 		var shared Options
 		if sameOpts {
 			shared = genOptions(t, rec)
+			genExtraOptions(t, &shared, false)
 		}
 		for i := 0; i < n; i++ {
 			o := shared
 			if !sameOpts {
 				o = genOptions(t, rec)
+				genExtraOptions(t, &o, false)
 			}
 			if rapid.IntRange(0, 5).Draw(t, "customlimit") == 0 {
 				// arbitrary options: a dictionary limit that is not one of the
